@@ -1248,8 +1248,10 @@ Proof.
       apply bind_ok_inv in H. destruct H as [l' [Hl' H]].
       apply bind_ok_inv in H. destruct H as [r' [Hr' H]]. injection H as <-.
       cbn [no_nested]. rewrite (IH l l' Hl Hl'), (IH r r' Hr Hr'). reflexivity.
-  - cbn [shake0] in H. apply bind_ok_inv in H. destruct H as [x [Hx H]]. injection H as <-.
-    cbn [no_nested] in *. apply (IH e x Hn Hx).
+  - destruct (shake0_match_inv _ _ _ _ H) as [[s [l [l' [-> [Hl' ->]]]]]|[_ [x [Hx ->]]]].
+    + cbn [no_nested] in *. eapply Forall2_forallb; [exact (mapM_Forall2 _ _ _ Hl')|].
+      intros x y Hx Hxy. cbn beta in Hxy. apply (IH x y); [apply (forallb_In _ _ _ Hn Hx)|exact Hxy].
+    + cbn [no_nested] in *. apply (IH e x Hn Hx).
   - cbn [shake0] in H. apply bind_ok_inv in H. destruct H as [x [Hx H]].
     cbn [no_nested] in Hn. pose proof (IH e x Hn Hx) as Hxn.
     destruct x; try (injection H as <-; exact Hxn).
@@ -1456,8 +1458,11 @@ Proof.
       apply bind_ok_inv in H. destruct H as [l' [Hl' H]].
       apply bind_ok_inv in H. destruct H as [r' [Hr' H]]. injection H as <-.
       cbn [wf_cond]. rewrite Hso. reflexivity.
-  - cbn [shake0] in H. apply bind_ok_inv in H. destruct H as [x [Hx H]]. injection H as <-.
-    cbn [wf_cond] in *. apply (IH e x Hn Hx).
+  - destruct (shake0_match_inv _ _ _ _ H) as [[s [l [l' [-> [Hl' ->]]]]]|[_ [x [Hx ->]]]].
+    + cbn [wf_cond] in *. apply andb_true_iff in Hn. destruct Hn as [Hs Hn]. rewrite Hs. cbn [andb].
+      eapply Forall2_forallb; [exact (mapM_Forall2 _ _ _ Hl')|].
+      intros x y Hx Hxy. cbn beta in Hxy. apply (IH x y); [apply (forallb_In _ _ _ Hn Hx)|exact Hxy].
+    + cbn [wf_cond] in *. apply (IH e x Hn Hx).
   - cbn [shake0] in H. apply bind_ok_inv in H. destruct H as [x [Hx H]].
     cbn [wf_cond] in Hn. pose proof (IH e x Hn Hx) as Hxn.
     destruct x; try (injection H as <-; exact Hxn).
@@ -1697,11 +1702,30 @@ Proof.
     injection H as <-. apply postc_refl. exact Hi.
   - (* ---------------- EMatch ---------------- *)
     assert (Hi0 := Hi). cbn [invc] in Hi. apply andb_true_iff in Hi. destruct Hi as [Hq Hie].
-    cbn [shake0] in H. apply bind_ok_inv in H. destruct H as [x [Hx H]]. injection H as <-.
-    destruct (IH e x Hie Hx) as [P1 [P2 [P4 [P6 [P7 P8]]]]].
-    assert (Hi' : invc (EMatch k x) = true) by (cbn [invc]; rewrite (P4 Hq), P1; reflexivity).
-    assert (Hsem : forall d, slv (EMatch k x) d = slv (EMatch k e) d)
-      by (intros d; apply P8; exact Hq).
+    assert (Hpk : exists x, e' = EMatch k x /\ invc (EMatch k x) = true /\
+                            forall d, slv (EMatch k x) d = slv (EMatch k e) d).
+    { destruct (shake0_match_inv _ _ _ _ H) as [[s [l [l' [-> [Hl' ->]]]]]|[_ [x [Hx ->]]]].
+      - (* fix D14: a group stays a group; its members are shaken *)
+        destruct (invc_group s l Hie) as [Hs [Hl [y1 [l0 El]]]].
+        pose proof (mapM_Forall2 _ _ _ Hl') as HF.
+        assert (HP : Forall2 postc l l').
+        { eapply Forall2_In_impl; [exact HF|]. intros x y Hx _ Hxy. cbn beta in Hxy.
+          apply IH; [|exact Hxy]. apply (forallb_In _ _ _ Hl Hx). }
+        assert (Hil' : forallb invc l' = true).
+        { eapply Forall2_forallb; [exact HP|]. intros x y _ Hp. apply Hp. }
+        assert (Hsm : semc_members l l').
+        { eapply Forall2_In_impl; [exact HP|]. intros x y _ _ Hp. apply Hp. }
+        pose proof (Forall2_length _ _ _ HP) as Hlen.
+        exists (EGroup s l'). split; [reflexivity|]. split.
+        + cbn [invc]. rewrite Hs. apply andb_true_iff. split.
+          * apply qok_group_len_intro. rewrite <- Hlen. apply (qok_group_len _ _ Hq).
+          * cbn [andb]. destruct l' as [|b1 l'0]; [subst l; discriminate Hlen|exact Hil'].
+        + intros d. apply semc_match_group_cong. exact Hsm.
+      - destruct (IH e x Hie Hx) as [P1 [P2 [P4 [P6 [P7 P8]]]]].
+        exists x. split; [reflexivity|]. split.
+        + cbn [invc]. rewrite (P4 Hq), P1. reflexivity.
+        + intros d. apply P8. exact Hq. }
+    destruct Hpk as [x [-> [Hi' Hsem]]].
     split_postc.
     + exact Hi'.
     + intros Hc. discriminate Hc.
@@ -1758,7 +1782,14 @@ Proof.
       rewrite shake0_bexp_cmp by exact Hs.
       rewrite (shake0_leaf fu l Hll), (shake0_leaf fu r Hlr). cbn [bind]. eexists; reflexivity.
   - cbn [invc] in Hi. apply andb_true_iff in Hi. destruct Hi as [_ Hie].
-    destruct (IH e Hie) as [x Hx]. cbn [shake0]. rewrite Hx. cbn [bind]. eexists; reflexivity.
+    destruct (is_group_dec e) as [[s [l ->]]|Hng].
+    + destruct (invc_group s l Hie) as [Hs [Hl _]].
+      rewrite shake0_match_group.
+      destruct (mapM_ok (fun x => shake0 fu x) l) as [l' Hl'].
+      { intros x Hx. apply IH. apply (forallb_In _ _ _ Hl Hx). }
+      rewrite Hl'. cbn [bind]. eexists; reflexivity.
+    + destruct (IH e Hie) as [x Hx]. rewrite (shake0_match_other fu k e Hng), Hx. cbn [bind].
+      eexists; reflexivity.
   - cbn [invc] in Hi. apply andb_true_iff in Hi. destruct Hi as [_ Hie].
     destruct (IH e Hie) as [x Hx]. cbn [shake0]. rewrite Hx. cbn [bind].
     assert (P1 : invc x = true) by apply (shake0_postc fu e x Hie Hx).
